@@ -1299,3 +1299,107 @@ def inject_pause(w: World) -> None:
 
 def inject_unpause(w: World) -> None:
     w.orchestrator.unpause(w.store.retrieve(w.workflow_id))
+
+
+# ----------------------------------------------------------------------------------------------- concurrent commit during a task body
+def body_race_run(prop: str, workload: str, nth_sym: Any, action_sym: Any, monitors: tuple[str, ...] = ("C06",), choices: list[Any] | None = None,
+                  compare: str = "none", post: Callable[[World, dict[str, Any], Any], tuple[str, Any] | None] | None = None,
+                  signal_ref: str | None = None) -> bool:
+    """While the n-th task execution of the run is inside Task.execute (n symbolic), another worker
+    commits a complete handler: CancelStage of the executing stage, CancelWorkflow (+ its CancelStage
+    fan-out), a persistent SignalStage for the stage, or a recovery sweep.  The RunTask handler holds
+    no transaction while the task body runs, so this is a real interleaving of two workers."""
+    from stabilize.queue.messages import CancelStage, CancelWorkflow, SignalStage
+
+    with hx.Path("body_race:%s:%s" % (prop, workload)) as P:
+        with hx.native():
+            w = World()
+            try:
+                wf = WORKLOADS[workload]()
+                spec = spec_of(wf)
+                w.submit(wf)
+                action = hx.pick(action_sym, 4)
+                fired: list[Any] = []
+
+                def on_task(entry: dict[str, Any]) -> None:
+                    if fired:
+                        return
+                    if hx.decide_eq(nth_sym, entry["n"]):
+                        fired.append((entry["ref"], entry["task"]))
+                        sid = w.refs[entry["ref"]]
+                        if action == 0:
+                            w.run_now(CancelStage(execution_id=w.workflow_id, stage_id=sid))
+                        elif action == 1:
+                            w.run_now(CancelWorkflow(execution_id=w.workflow_id, user="vf", reason="race"))
+                            saved = (HOOKS.ctx, HOOKS.handler_base, w._in_deliver)
+                            try:
+                                for r in [r for r in w.rows() if r["message_type"] == "CancelStage"]:
+                                    w.deliver(r["id"])
+                            finally:
+                                HOOKS.ctx, HOOKS.handler_base, w._in_deliver = saved
+                        elif action == 2:
+                            tgt = w.refs[signal_ref] if signal_ref else sid
+                            w.signal_seen.append(w.peek_stage_status(tgt))
+                            w.run_now(SignalStage(execution_id=w.workflow_id, stage_id=tgt, signal_name="go", signal_data={"v": 7}, persistent=True))
+                        else:
+                            w.processor.run_recovery()
+
+                w.on_task = on_task
+                step = 0
+                cp = 0
+                while step < MAX_STEPS:
+                    if not w.make_visible():
+                        break
+                    now = stubs.CLOCK.peek_ms()
+                    vis = [r for r in w.rows() if r["attempts"] < w.queue_max_attempts and r["deliver_ms"] // 1000 <= now // 1000
+                           and (r["lock_ms"] is None or r["lock_ms"] // 1000 < now // 1000)]
+                    if not vis:
+                        break
+                    vis.sort(key=lambda r: (r["deliver_at"], r["id"]))
+                    idx = 0
+                    if choices and fired and cp < len(choices) and len(vis) > 1:
+                        idx = hx.pick(choices[cp], min(len(vis), 3))
+                        cp += 1
+                    w.deliver(vis[idx]["id"])
+                    step += 1
+                w.on_task = None
+                snap = w.snapshot()
+                summ = summarize(snap)
+                act = ["CancelStage", "CancelWorkflow", "persistent SignalStage", "recovery sweep"][action]
+                if fired:
+                    P.reached("%s during %s.%s" % (act, fired[0][0], fired[0][1]), {"workload": workload, "during": list(fired[0]), "other_worker": act, "final": summ["workflow"]})
+                info = {"workload": workload, "during_task": list(fired[0]) if fired else None, "other_worker": act, "final": summ["stages"], "workflow": summ["workflow"], "errors": w.handler_errors[:3]}
+                if step >= MAX_STEPS:
+                    return P.fail("%s/body_race/%s/no_termination/%s" % (prop, workload, act.replace(" ", "_")), info)
+                for m in monitors:
+                    bad = MONITORS[m](w, spec)
+                    if bad is not None:
+                        return P.fail("%s/body_race/%s/%s/%s" % (prop, workload, act.replace(" ", "_"), bad[0]), {**info, "detail": bad[1]})
+                if "C05" in monitors or prop == "C05":
+                    q = quiescent_ok(snap)
+                    if q is not None:
+                        return P.fail("%s/body_race/%s/%s/not_quiescent/%s" % (prop, workload, act.replace(" ", "_"), state_sig(summ)), {**info, "why": q})
+                if compare != "none" and fired:
+                    ref = reference(workload)
+                    rs = ref["summary"]
+                    if summ["workflow"] != rs["workflow"] or summ["stages"] != rs["stages"]:
+                        return P.fail("%s/body_race/%s/%s/outcome_differs/%s" % (prop, workload, act.replace(" ", "_"), state_sig(summ)), {**info, "expected": rs["stages"]})
+                    a_, b_ = Counter((r, t) for r, t, _ in _ledger_view(w)), Counter((r, t) for r, t, _ in ref["ledger"])
+                    if a_ != b_:
+                        return P.fail("%s/body_race/%s/%s/executions_differ" % (prop, workload, act.replace(" ", "_")), {**info, "extra": sorted((a_ - b_).elements())[:4], "missing": sorted((b_ - a_).elements())[:4]})
+                    q = quiescent_ok(snap)
+                    if q is not None:
+                        return P.fail("%s/body_race/%s/%s/not_quiescent/%s" % (prop, workload, act.replace(" ", "_"), state_sig(summ)), {**info, "why": q})
+                if post is not None and fired:
+                    badp = post(w, snap, {"injected": [1], "during": fired[0]})
+                    if badp is not None:
+                        return P.fail("%s/body_race/%s/%s/%s" % (prop, workload, act.replace(" ", "_"), badp[0]), {**info, "detail": badp[1]})
+                if prop == "C17" and action == 1 and fired:
+                    late = [e for e in w.ledger.entries if e["canceled"]]
+                    if late:
+                        return P.fail("C17/body_race/%s/task_started_after_cancel/%s.%s" % (workload, late[0]["ref"], late[0]["task"]), info)
+                    if snap["workflow"] not in COMPLETE:
+                        return P.fail("C17/body_race/%s/workflow_not_final/%s" % (workload, state_sig(summ)), info)
+                return True
+            finally:
+                w.close()
